@@ -351,7 +351,7 @@ func (c *cluster) reload(cli EtcdClient) {
 	c.lock.Lock()
 	// cancel the previous watches
 	close(c.done)
-	c.watchGroup.Wait()
+	watchGroup := c.watchGroup
 	var keys []watchKey
 	for wk, wval := range c.watchers {
 		keys = append(keys, wk)
@@ -363,6 +363,10 @@ func (c *cluster) reload(cli EtcdClient) {
 	c.done = make(chan lang.PlaceholderType)
 	c.watchGroup = threading.NewRoutineGroup()
 	c.lock.Unlock()
+
+	// wait for the previous watches without holding the lock,
+	// they need it to finish handling the events in flight.
+	watchGroup.Wait()
 
 	// start new watches
 	for _, key := range keys {
